@@ -31,6 +31,21 @@ pub fn extra(args: &[String]) {
         _ => None,
     };
     let rule_names: Vec<String> = (0..n).map(|i| format!("p{i}")).collect();
+    // path 6: two properties in ONE expression - every grouped category in a choice with every name, in both orders -
+    // through the real front-end (optimizer included): `G | P` matches c iff G(c) or P(c)
+    let groups: Vec<usize> = ["LETTER", "CASED_LETTER", "MARK", "NUMBER", "PUNCTUATION", "SYMBOL", "SEPARATOR", "OTHER"]
+        .iter().filter_map(|g| NAMES.iter().position(|n| n == g)).collect();
+    let mut ug = String::new();
+    for (gi, g) in groups.iter().enumerate() {
+        for i in 0..n {
+            ug.push_str(&format!("u{gi}_{i} = {{ {} | {} }}\nv{gi}_{i} = {{ {} | {} }}\n", NAMES[*g], NAMES[i], NAMES[i], NAMES[*g]));
+        }
+    }
+    let uvm = match guarded(|| vh::peg::front_end(&ug)) {
+        Ok(Ok((_, opt))) => Some(pest_vm::Vm::new(opt)),
+        _ => None,
+    };
+    let mut checked6 = 0u64;
     let mut runs = 0u64;
     let mut disagreements: Vec<serde_json::Value> = vec![];
     let mut ndis = 0u64;
@@ -81,6 +96,28 @@ pub fn extra(args: &[String]) {
                         }
                     }
                 }
+                // path 6 (on a third of the sampled characters)
+                if let Some(uvm) = &uvm {
+                    if (cp as usize + i) % 3 == 0 {
+                        for (gi, g) in groups.iter().enumerate() {
+                            let expu = exp || m.contains(&(*g as u16));
+                            for pre in ["u", "v"] {
+                                let got = guarded(|| uvm.parse(&format!("{pre}{gi}_{i}"), s).is_ok()).unwrap_or(false);
+                                checked6 += 1;
+                                if got != expu {
+                                    ndis += 1;
+                                    if disagreements.len() < 50 {
+                                        let expr = if pre == "u" { format!("{} | {}", NAMES[*g], NAMES[i]) } else { format!("{} | {}", NAMES[i], NAMES[*g]) };
+                                        disagreements.push(json!({"cp": cp, "name": expr, "function": expu, "vm": got}));
+                                    }
+                                }
+                            }
+                        }
+                    }
+                } else if ndis == 0 {
+                    ndis += 1;
+                    disagreements.push(json!({"cp": cp, "name": "grammar of all `GROUP | NAME` rules", "function": true, "vm": false}));
+                }
                 // path 5: the property name itself as the START rule of the same VM, held in a short-lived String
                 // (a VM may be used for many parses and the caller's name buffers come and go)
                 if let Some(vm) = &vm {
@@ -130,5 +167,5 @@ pub fn extra(args: &[String]) {
                        "rejected_by_validator": NAMES.iter().zip(&accepted).filter(|(_, r)| !**r).map(|(n, _)| *n).collect::<Vec<_>>(),
                        "vm_grammar_ok": vm.is_some()}));
     w.flush().unwrap();
-    println!("{}", json!({"runs": runs, "names": n, "disagreements": ndis, "checked_by_name": checked23, "checked_vm_and_generated": checked4}));
+    println!("{}", json!({"runs": runs, "names": n, "disagreements": ndis, "checked_by_name": checked23, "checked_vm_and_generated": checked4, "checked_group_or_name": checked6}));
 }
